@@ -239,6 +239,22 @@ def logic():
          + (1 if g(B2) else 2)})
 
 
+def overflow():
+    """Functions whose results leave the double range: #NUM!, every time,
+    whatever was evaluated before (C05 only)."""
+    import math
+    A1, B1, B2, B3, B4, C1 = (S + x for x in
+                              ('A1', 'B1', 'B2', 'B3', 'B4', 'C1'))
+    NUM = ErrV('#NUM!')
+    return ModelSpec(
+        'overflow',
+        {A1: 1000, B1: '=EXP(A1)', B2: '=COSH(A1)', B3: '=DEGREES(1E+308)',
+         B4: '=EXP(1)', C1: '=IF(ISERROR(B2),1,2)'},
+        [A1], [1000],
+        {B1: lambda g: NUM, B2: lambda g: NUM, B3: lambda g: NUM,
+         B4: lambda g: math.e, C1: lambda g: 1})
+
+
 def othersheet():
     """read_and_parse_dict with formulas on a sheet that is not the default
     one: an unqualified range (with a hole: A2 is not a cell of the model)
@@ -274,6 +290,23 @@ def guarded():
         [A1], [5, 0],
         {B1: b1, C1: up(lambda g: g(B1) * 2),
          D1: up(lambda g: g(B1) * 2 + g(A1))})
+
+
+def raising():
+    """'guarded' with the guard set: evaluating B1, C1 or D1 raises from the
+    start, E1 computes (C05 only: an evaluation that raises leaves nothing
+    behind either)."""
+    spec = guarded()
+    spec.name = 'raising'
+    spec.cells = dict(spec.cells)
+    spec.cells[S + 'A1'] = 5
+    spec.cells[S + 'E1'] = '=A1+1'
+    spec.ref = dict(spec.ref)
+    spec.ref[S + 'E1'] = lambda g: g(S + 'A1') + 1
+    spec.formulas = spec.formulas + [S + 'E1']
+    spec.all_cells = list(spec.cells)
+    spec.eval_cells = list(spec.cells)
+    return spec
 
 
 def named_extracted():
@@ -354,7 +387,7 @@ def lookup():
 ALL = [chain, diamond, sumrange, formularange, crosssheet, textmodel, named,
        branch, lookup, errrange, typed, guarded, named_extracted, othersheet,
        logic]
-ALL_C05 = ALL + [twodim, longrange, criteria]
+ALL_C05 = ALL + [twodim, longrange, criteria, overflow, raising]
 
 
 def by_name(name):
